@@ -277,10 +277,98 @@ fn replay_list(case: &Value) -> Value {
             }
         }
     }
+    // the same list through the Dwarf-level and UnitRef-level API of a unit of each
+    // version / format / file type (unit images come from the model, see "unitimages")
+    let mut dvariants = 0;
+    let mut ddiff: Vec<Value> = vec![];
+    let rng_dwos = [false, true];
+    for ver in &vers {
+        let ds: &[bool] = if base.loc { &dwos } else { &rng_dwos };
+        for dwo in ds {
+            for fmt in [Format::Dwarf32, Format::Dwarf64] {
+                let c = Cf { ver: *ver, dwo: *dwo, fmt, ..base };
+                let Some((info, abbrev)) = unit_image(&c) else { continue };
+                let o = guarded(|| dwarf_level_list(&c, &info, &abbrev, &sec, off, ub, &addr_sec, addr_base));
+                dvariants += 1;
+                if o["raw"] != first["raw"] || o["res"] != first["res"] || o["uref_same"] != json!(true) {
+                    ddiff.push(json!({"cf":cf_json(&c),"obs":o}));
+                }
+            }
+        }
+    }
     let mut o = first;
     o["variants"] = json!(variants);
     o["diff"] = Value::Array(diff);
+    o["dvariants"] = json!(dvariants);
+    o["ddiff"] = Value::Array(ddiff);
     o
+}
+
+type Image = (u16, bool, bool, u8, bool, Vec<u8>, Vec<u8>);
+static IMAGES: std::sync::Mutex<Vec<Image>> = std::sync::Mutex::new(Vec::new());
+
+/// `{"sys":"unitimages","table":[{"cf":..,"info":[..],"abbrev":[..]},..]}`: minimal units (a root
+/// DIE without attributes) for every version / format / file type / address size / byte order.
+fn store_images(case: &Value) -> Value {
+    let mut t = IMAGES.lock().unwrap();
+    t.clear();
+    for e in case["table"].as_array().cloned().unwrap_or_default() {
+        let c = cf_of(&e["cf"]);
+        t.push((c.ver, c.fmt == Format::Dwarf64, c.dwo, c.asz, c.le, bytes_of(&e["info"]), bytes_of(&e["abbrev"])));
+    }
+    json!({"stored": t.len()})
+}
+fn unit_image(c: &Cf) -> Option<(Vec<u8>, Vec<u8>)> {
+    let t = IMAGES.lock().unwrap();
+    t.iter()
+        .find(|x| x.0 == c.ver && x.1 == (c.fmt == Format::Dwarf64) && x.2 == c.dwo && x.3 == c.asz && x.4 == c.le)
+        .map(|x| (x.5.clone(), x.6.clone()))
+}
+
+/// The list at `off` read through `Dwarf::{raw_ranges,ranges,raw_locations,locations}` and the
+/// `UnitRef` methods of a unit with the given base address / address-table base.
+fn dwarf_level_list(c: &Cf, info: &[u8], abbrev: &[u8], sec: &[u8], off: usize, ub: u64, addr_sec: &[u8], addr_base: usize) -> Value {
+    let e = endian(c.le);
+    let empty: &[u8] = &[];
+    let mut dwarf = gimli::Dwarf::load(|id| -> Result<R, ()> {
+        Ok(EndianSlice::new(
+            match id {
+                SectionId::DebugInfo => info,
+                SectionId::DebugAbbrev => abbrev,
+                SectionId::DebugAddr => addr_sec,
+                SectionId::DebugRanges | SectionId::DebugRngLists | SectionId::DebugLoc | SectionId::DebugLocLists => sec,
+                _ => empty,
+            },
+            e,
+        ))
+    })
+    .unwrap();
+    if c.dwo {
+        dwarf.file_type = DwarfFileType::Dwo;
+    }
+    let header = match dwarf.units().next() {
+        Ok(Some(h)) => h,
+        _ => return json!({"t":"no-unit"}),
+    };
+    let mut unit = match gimli::Unit::new(&dwarf, header) {
+        Ok(u) => u,
+        Err(x) => return json!({"t":"unit-err","err":err_name(&x)}),
+    };
+    unit.low_pc = ub;
+    unit.addr_base = DebugAddrBase(addr_base);
+    let cap = sec.len() + 4;
+    let u = unit.unit_ref(&dwarf);
+    let (raw, res, raw_u, res_u) = if c.loc {
+        let o = LocationListsOffset(off);
+        (run_raw_loc(dwarf.raw_locations(&unit, o), cap), run_loc(dwarf.locations(&unit, o), cap),
+         run_raw_loc(u.raw_locations(o), cap), run_loc(u.locations(o), cap))
+    } else {
+        let o = RangeListsOffset(off);
+        (run_raw_rng(dwarf.raw_ranges(&unit, o), cap), run_rng(dwarf.ranges(&unit, o), cap),
+         run_raw_rng(u.raw_ranges(o), cap), run_rng(u.ranges(o), cap))
+    };
+    let same = raw == raw_u && res == res_u;
+    json!({"raw":raw,"res":res,"uref_same":same})
 }
 
 // ---------------------------------------------------------------- die mode
@@ -378,44 +466,36 @@ fn die_once(c: &Cf, info: &[u8], abbrev: &[u8], file: &Value, split: Option<(&[u
     }
     let unit = unit;
     let cap = 64;
-    let mut attrs: Vec<Value> = vec![];
     let mut cursor = unit.entries();
     let root = match cursor.next_dfs() {
         Ok(Some(r)) => r.clone(),
         _ => return json!({"unit":{"t":"err","err":"NoRoot"}}),
     };
+    // Dwarf-level API
+    let mut attrs: Vec<Value> = vec![];
+    let mut api_same = true;
     for a in root.attrs() {
         let ro = dwarf.attr_ranges_offset(&unit, a.value()).map(|o| o.map(|x| x.0));
         let lo = dwarf.attr_locations_offset(&unit, a.value()).map(|o| o.map(|x| x.0));
         let rr = match dwarf.attr_ranges(&unit, a.value()) {
-            Ok(Some(mut it)) => {
-                let mut v = vec![];
-                for _ in 0..cap {
-                    match it.next() {
-                        Ok(Some(x)) => v.push(range_item(x.begin, x.end, &[], cv)),
-                        Ok(None) => break,
-                        Err(x) => v.push(err_item(&x)),
-                    }
-                }
-                json!({"open":true,"items":v})
-            }
-            _ => json!({"open":false,"items":[]}),
+            Ok(Some(it)) => run_rng(Ok(it), cap),
+            _ => closed(),
         };
         let lr = match dwarf.attr_locations(&unit, a.value()) {
-            Ok(Some(mut it)) => {
-                let mut v = vec![];
-                for _ in 0..cap {
-                    match it.next() {
-                        Ok(Some(x)) => v.push(range_item(x.range.begin, x.range.end, x.data.0.slice(), cv)),
-                        Ok(None) => break,
-                        Err(x) => v.push(err_item(&x)),
-                    }
-                }
-                json!({"open":true,"items":v})
-            }
-            _ => json!({"open":false,"items":[]}),
+            Ok(Some(it)) => run_loc(Ok(it), cap),
+            _ => closed(),
         };
-        attrs.push(json!({"at":a.name().0,"ro":opt_off(ro),"lo":opt_off(lo),"rr":rr,"lr":lr}));
+        // the raw iterators and the offset-taking resolving API at the same offsets
+        let (mut rw, mut lw) = (closed(), closed());
+        if let Ok(Some(off)) = ro {
+            rw = run_raw_rng(dwarf.raw_ranges(&unit, RangeListsOffset(off)), cap);
+            api_same &= run_rng(dwarf.ranges(&unit, RangeListsOffset(off)), cap) == rr;
+        }
+        if let Ok(Some(off)) = lo {
+            lw = run_raw_loc(dwarf.raw_locations(&unit, LocationListsOffset(off)), cap);
+            api_same &= run_loc(dwarf.locations(&unit, LocationListsOffset(off)), cap) == lr;
+        }
+        attrs.push(json!({"at":a.name().0,"ro":opt_off(ro),"lo":opt_off(lo),"rr":rr,"lr":lr,"rw":rw,"lw":lw}));
     }
     let die = match dwarf.die_ranges(&unit, &root) {
         Ok(it) => json!({"t":"ok","items":iter_ranges(it, cap)}),
@@ -426,9 +506,116 @@ fn die_once(c: &Cf, info: &[u8], abbrev: &[u8], file: &Value, split: Option<(&[u
         Err(x) => err_item(&x),
     };
     let raw0 = dwarf.ranges_offset_from_raw(&unit, gimli::RawRangeListsOffset(5)).0;
-    json!({"unit":{"t":"ok","low_pc":cv(unit.low_pc),"addr_base":cv(unit.addr_base.0 as u64),
+    // the same through UnitRef
+    let u = unit.unit_ref(&dwarf);
+    let mut attrs_u: Vec<Value> = vec![];
+    for a in root.attrs() {
+        let ro = u.attr_ranges_offset(a.value()).map(|o| o.map(|x| x.0));
+        let lo = u.attr_locations_offset(a.value()).map(|o| o.map(|x| x.0));
+        let rr = match u.attr_ranges(a.value()) {
+            Ok(Some(it)) => run_rng(Ok(it), cap),
+            _ => closed(),
+        };
+        let lr = match u.attr_locations(a.value()) {
+            Ok(Some(it)) => run_loc(Ok(it), cap),
+            _ => closed(),
+        };
+        let (mut rw, mut lw) = (closed(), closed());
+        if let Ok(Some(off)) = ro {
+            rw = run_raw_rng(u.raw_ranges(RangeListsOffset(off)), cap);
+            api_same &= run_rng(u.ranges(RangeListsOffset(off)), cap) == rr;
+        }
+        if let Ok(Some(off)) = lo {
+            lw = run_raw_loc(u.raw_locations(LocationListsOffset(off)), cap);
+            api_same &= run_loc(u.locations(LocationListsOffset(off)), cap) == lr;
+        }
+        attrs_u.push(json!({"at":a.name().0,"ro":opt_off(ro),"lo":opt_off(lo),"rr":rr,"lr":lr,"rw":rw,"lw":lw}));
+    }
+    let die_u = match u.die_ranges(&root) {
+        Ok(it) => json!({"t":"ok","items":iter_ranges(it, cap)}),
+        Err(x) => err_item(&x),
+    };
+    let ur_u = match u.unit_ranges() {
+        Ok(it) => json!({"t":"ok","items":iter_ranges(it, cap)}),
+        Err(x) => err_item(&x),
+    };
+    let raw0_u = u.ranges_offset_from_raw(gimli::RawRangeListsOffset(5)).0;
+    let uref_same = attrs_u == attrs && die_u == die && ur_u == ur && raw0_u == raw0;
+    let mut out = json!({"unit":{"t":"ok","low_pc":cv(unit.low_pc),"addr_base":cv(unit.addr_base.0 as u64),
                    "rnglists_base":cv(unit.rnglists_base.0 as u64),"loclists_base":cv(unit.loclists_base.0 as u64)},
-           "attrs":attrs,"die":die,"ur":ur,"raw0":cv(raw0 as u64)})
+           "attrs":attrs,"die":die,"ur":ur,"raw0":cv(raw0 as u64),"api_same":api_same,"uref_same":uref_same});
+    if !uref_same {
+        out["uref"] = json!({"attrs":attrs_u,"die":die_u,"ur":ur_u,"raw0":cv(raw0_u as u64)});
+    }
+    out
+}
+
+fn closed() -> Value {
+    json!({"open":false,"items":[]})
+}
+fn run_rng<'a>(r: gimli::Result<gimli::RngListIter<R<'a>>>, cap: usize) -> Value {
+    match r {
+        Ok(mut it) => {
+            let mut v = vec![];
+            for _ in 0..cap {
+                match it.next() {
+                    Ok(Some(x)) => v.push(range_item(x.begin, x.end, &[], cv)),
+                    Ok(None) => break,
+                    Err(x) => v.push(err_item(&x)),
+                }
+            }
+            json!({"open":true,"items":v})
+        }
+        Err(_) => closed(),
+    }
+}
+fn run_loc<'a>(r: gimli::Result<gimli::LocListIter<R<'a>>>, cap: usize) -> Value {
+    match r {
+        Ok(mut it) => {
+            let mut v = vec![];
+            for _ in 0..cap {
+                match it.next() {
+                    Ok(Some(x)) => v.push(range_item(x.range.begin, x.range.end, x.data.0.slice(), cv)),
+                    Ok(None) => break,
+                    Err(x) => v.push(err_item(&x)),
+                }
+            }
+            json!({"open":true,"items":v})
+        }
+        Err(_) => closed(),
+    }
+}
+fn run_raw_rng<'a>(r: gimli::Result<gimli::RawRngListIter<R<'a>>>, cap: usize) -> Value {
+    match r {
+        Ok(mut it) => {
+            let mut v = vec![];
+            for _ in 0..cap {
+                match it.next() {
+                    Ok(Some(x)) => v.push(raw_rng_item(&x, cv)),
+                    Ok(None) => break,
+                    Err(x) => v.push(err_item(&x)),
+                }
+            }
+            json!({"open":true,"items":v})
+        }
+        Err(_) => closed(),
+    }
+}
+fn run_raw_loc<'a>(r: gimli::Result<gimli::RawLocListIter<R<'a>>>, cap: usize) -> Value {
+    match r {
+        Ok(mut it) => {
+            let mut v = vec![];
+            for _ in 0..cap {
+                match it.next() {
+                    Ok(Some(x)) => v.push(raw_loc_item(&x, cv)),
+                    Ok(None) => break,
+                    Err(x) => v.push(err_item(&x)),
+                }
+            }
+            json!({"open":true,"items":v})
+        }
+        Err(_) => closed(),
+    }
 }
 
 /// All version variants of one unit image; the first observation plus the variants that differ.
@@ -484,6 +671,7 @@ fn replay_die(case: &Value) -> Value {
 
 fn replay(case: &Value) -> Value {
     match case["sys"].as_str() {
+        Some("unitimages") => store_images(case),
         Some("list") => replay_list(case),
         Some("die") => replay_die(case),
         _ => json!({"outcome":"bad-sys"}),
